@@ -17,6 +17,11 @@ WORKLOADS = ["h_put", "h_putc", "h_put16", "h_linked", "h_linkedc", "h_update", 
              "gr_write", "gr_read", "an_write", "an_read",
              "sd_dims", "sd_inq", "sd_cinq", "h_special", "h_inq", "v_attr", "v_inq", "v_inq1", "gr_more", "gr_inq",
              "gr_inq1"]
+# workloads that write: repeated with DD caching switched off (variant bit 2: every descriptor update and every new DD
+# block is written through at once -- code the default configuration never runs) and, sampled, with a program that
+# ignores failures and goes on issuing calls (variant bit 4)
+WRITE_WL = ["h_put", "h_putc", "h_put16", "h_linked", "h_linkedc", "h_update", "h_updatec", "v_write", "v_update",
+            "sd_write", "sd_chunk", "sd_update", "gr_write", "an_write", "sd_dims", "h_special", "v_attr", "gr_more"]
 FN_SCEN = {"plain": ["Hclose", "HIsync", "Hsync", "HTPsync", "HIextend_file", "HP_write 7", "HPseek 10", "HPseekcur"],
            "nocache": ["Hclose", "HIsync", "HP_write 3", "HPseek 0"],
            "cache": ["Hclose", "HIsync", "Hsync", "HTPsync", "HIextend_file", "HP_write 1"],
@@ -26,18 +31,24 @@ FN_SCEN = {"plain": ["Hclose", "HIsync", "Hsync", "HTPsync", "HIextend_file", "H
            "rdwr": ["HP_write 5", "HP_read 3", "HPseekcur", "HPseek 0", "Hclose", "HIextend_file"],
            "attached": ["Hclose"],
            "two": ["Hclose", "Hsync"],
-           "twoatt": ["Hclose"]}
+           "twoatt": ["Hclose"],
+           "ncfull": ["HTInew_dd_block", "HPgetdiskblock 50", "HTIupdate_dd 2", "Hclose"],
+           "cfull": ["HTInew_dd_block", "HPgetdiskblock 50", "HTIupdate_dd 2", "Hclose"],
+           "ncfull2": ["HTInew_dd_block", "HTIupdate_dd 1"],
+           "cfull2": ["HTInew_dd_block", "Hclose"]}
 
-RULE = ("20 workload programs (H elements incl. linked blocks, DD-block overflow, cache on/off, update and read of "
+RULE = ("31 workload programs (20 of the first round + dimension/special-element/inquiry workloads; H elements incl. linked blocks, DD-block overflow, cache on/off, update and read of "
         "existing files; Vdata/Vgroup write, update, read; SD write incl. unlimited, chunked, chunked+deflate, RLE, "
         "deflate, update, read; GR write incl. palette and deflate, read; AN write, read); for each, the fault-free run "
         "counts the stdio calls (fopen/fread/fwrite/fseek/ftell/fflush/fclose) and then EVERY index k is made to fail, "
         "once as a single fault and once sticky (k and all later calls), transfers of failing fread/fwrite = nothing "
         "(errno EIO); a PRNG-chosen (VERIF_SEED) third of the indices (thorough: all) is repeated with strict-prefix "
         "transfers (errno ENOSPC), and half of them (thorough: all, gaps 1,2,3,5,8,13,21) with a second independent single "
-        "fault at index k+gap. Each run is a child process under ASan/UBSan with a 20 s watchdog; recorded: every "
+        "fault at index k+gap. The 18 writing workloads are run a second time in full with DD caching switched off "
+        "(Hcache(CACHE_ALL_FILES, FALSE): descriptor updates and new DD blocks written through), and for half of their "
+        "indices (thorough: all) with a program that ignores failures and issues every remaining call. Each run is a child process under ASan/UBSan with a 20 s watchdog; recorded: every "
         "API return value, exit status, final file bytes and a hash of all data read, compared with the fault-free "
-        "run. Function level: 10 prepared file records x up to 8 L1 functions x every fault index x single/sticky. "
+        "run. Function level: 14 prepared file records x up to 8 L1 functions x every fault index x single/sticky. "
         "A case is non-trivial when the injected fault actually hit (nfaults > 0); distinct by (workload, mode, k, "
         "variant)")
 TRUSTED = ["Coq 8.16.1 kernel (vm_compute only on closed finite terms)",
@@ -140,16 +151,18 @@ def run(ctx):
     wl_corpus = [l for l in corpus if not l.startswith("fn ")]
     fn_corpus = [l for l in corpus if l.startswith("fn ")]
     # ---- fault-free runs: number of stdio calls per workload ---------------------------------------------
-    base = run_jobs(ctx, exe, ["%s n -1 0" % w for w in WORKLOADS], "base")
+    combos = [(w, 0) for w in WORKLOADS] + [(w, 2) for w in WRITE_WL]
+    base = run_jobs(ctx, exe, ["%s n -1 %d" % c for c in combos], "base")
     jobs = list(wl_corpus)
-    for w, l in zip(WORKLOADS, base):
+    for (w, v0), l in zip(combos, base):
         if l is None:
             ctx.violation("fault-free run of workload %s produced no result" % w, "%s n -1 0" % w, found=True)
             nviol += 1
             continue
         d = fields(l)
         n = int(d["ncalls"])
-        stats["workloads"][w] = {"stdio_calls": n, "api_calls": len(d["rets"].split(",")), "kinds": d.get("kinds", "")[:400]}
+        stats["workloads"][w + ("/nocache" if v0 else "")] = {"stdio_calls": n, "api_calls": len(d["rets"].split(",")),
+                                                              "kinds": d.get("kinds", "")[:400]}
         if d["status"] != "ok" or d["allok"] != "1":
             ctx.violation("workload %s fails without any fault: %s" % (w, l[:300]), "%s n -1 0" % w, found=True)
             nviol += 1
@@ -158,14 +171,21 @@ def run(ctx):
             stats["nondeterministic_workloads"].append(w)
             continue
         for k in range(n):
-            jobs.append("%s s %d 0" % (w, k))
-            jobs.append("%s t %d 0" % (w, k))
+            jobs.append("%s s %d %d" % (w, k, v0))
+            jobs.append("%s t %d %d" % (w, k, v0))
             if ctx.tier == "thorough" or r.random() < 0.34:
-                jobs.append("%s %s %d 1" % (w, r.choice("st"), k))
+                jobs.append("%s %s %d %d" % (w, r.choice("st"), k, v0 | 1))
             # two independent single faults: the second one hits clean-up / retry code after the first
             for gap in ((1, 2, 3, 5, 8, 13, 21) if ctx.tier == "thorough" else (r.choice((1, 2, 3, 5, 8, 13, 21)),)):
-                if ctx.tier == "thorough" or r.random() < 0.5:
-                    jobs.append("%s s %d 0 %d" % (w, k, k + gap))
+                if ctx.tier == "thorough" or r.random() < (0.5 if not v0 else 0.2):
+                    jobs.append("%s s %d %d %d" % (w, k, v0, k + gap))
+            # a program that ignores the failure and goes on (write workloads only: their calls need no results of
+            # earlier calls other than ids, which the library must reject when they are invalid)
+            if w in WRITE_WL:
+                if ctx.tier == "thorough":
+                    jobs += ["%s %s %d %d" % (w, m, k, v0 | 4 | b) for m in "st" for b in (0, 1)]
+                elif r.random() < 0.5:
+                    jobs.append("%s %s %d %d" % (w, r.choice("st"), k, v0 | 4 | r.choice((0, 1))))
     out = run_jobs(ctx, exe, jobs, "main")
     ver = judge_lines(ctx, mod, out, "main")
     stats["jobs"] = len(jobs)
